@@ -91,7 +91,7 @@ def run(ctx):
     F.explore(ctx, h, drv, cases_main(C.Rng(ctx.seed, "c11/main"), n, ctx.tier), "main", "c11")
     if ctx.tier == "thorough":
         F.explore(ctx, h, drv, cases_wordalign_all(C.Rng(ctx.seed, "c11/wa")), "wordalign", "c11w")
-    if ctx.proof_broken or ctx.corr_broken:
+    if (ctx.proof_broken or ctx.corr_broken) and not ctx.violations:
         ctx.log("obligation or correspondence broken: widening the search for a failing input")
         for i in range(3):
             F.explore(ctx, h, drv, cases_main(C.Rng(ctx.seed, "c11/search%d" % i), 200, "thorough"), "search%d" % i, "c11s")
